@@ -560,11 +560,10 @@ Proof.
                                   ++ encode_value (S (value_size (snd x))) (snd x) DEFAULT_VALUE_DECOR ++ [x0a]) l).
   { intro l. apply flat_map_ext. intros [kp v]. reflexivity. }
   rewrite E. clear E.
-  destruct path as [|k0 path].
-  - destruct (table_values (S (tbl_size t)) [] (t_items t)); reflexivity.
-  - destruct is_array; [reflexivity|].
-    destruct (t_implicit t); simpl andb; [|reflexivity].
-    destruct (table_values (S (tbl_size t)) [] (t_items t)); reflexivity.
+  generalize (table_values (S (tbl_size t)) [] (t_items t)). intro ch.
+  destruct path as [|k0 path]; [destruct ch; reflexivity|].
+  destruct is_array; [reflexivity|].
+  destruct (t_implicit t); destruct ch; reflexivity.
 Qed.
 
 (* the sections of a document in printing order: (position, (table, header path, is_array)) *)
@@ -592,3 +591,319 @@ Theorem display_document_sections root trailing :
     ++ decor_suffix (t_decor root) (snd DEFAULT_ROOT_DECOR)
     ++ raw_encode trailing [].
 Proof. unfold display_document, doc_sections. rewrite visit_tables_eq. reflexivity. Qed.
+
+(* ==================================================================================== *)
+(** * E. Every line fragment of the tree is printed *)
+
+Definition infix {A} (a b : list A) : Prop := exists pre post, b = pre ++ a ++ post.
+
+Lemma infix_refl {A} (a : list A) : infix a a.
+Proof. exists [], []. rewrite app_nil_r. reflexivity. Qed.
+Lemma infix_app_r {A} (a b c : list A) : infix a b -> infix a (b ++ c).
+Proof. intros (x & y & ->). exists x, (y ++ c). rewrite !app_assoc. reflexivity. Qed.
+Lemma infix_app_l {A} (a b c : list A) : infix a b -> infix a (c ++ b).
+Proof. intros (x & y & ->). exists (c ++ x), y. rewrite !app_assoc. reflexivity. Qed.
+Lemma infix_trans {A} (a b c : list A) : infix a b -> infix b c -> infix a c.
+Proof.
+  intros (x & y & ->) (x' & y' & ->). exists (x' ++ x), (y ++ y'). rewrite !app_assoc. reflexivity.
+Qed.
+Lemma infix_flat_map {A B} (f : A -> list B) x l : In x l -> infix (f x) (flat_map f l).
+Proof.
+  induction l as [|y l IH]; simpl; [contradiction|]. intros [->|H].
+  - apply infix_app_r, infix_refl.
+  - apply infix_app_l, IH, H.
+Qed.
+
+(* -- the bodies of the two traversals of Encode.v -- *)
+Definition contrib (f : nat) (parent : list key) (kv : key * item) : list (list key * value) :=
+  let path := parent ++ [fst kv] in
+  match snd kv with
+  | ITable (Tbl sub _ _ true _ _) => table_values f path sub
+  | IValue (VInline sub _ _ true _ _) => inline_values f path sub
+  | IValue v => [(path, v)]
+  | _ => []
+  end.
+Lemma table_values_S f parent items : table_values (S f) parent items = flat_map (contrib f parent) items.
+Proof. reflexivity. Qed.
+
+Definition ncontrib (f : nat) (path : list key) (kv : key * item) : list (tbl * list key * bool) :=
+  match snd kv with
+  | ITable sub => nested_tables f sub (path ++ [fst kv]) false
+  | IAot ts _ => flat_map (fun sub => nested_tables f sub (path ++ [fst kv]) true) ts
+  | _ => []
+  end.
+Lemma nested_tables_S f t path arr :
+  nested_tables (S f) t path arr
+  = (if t_dotted t then [] else [(t, path, arr)]) ++ flat_map (ncontrib f path) (t_items t).
+Proof. reflexivity. Qed.
+
+(* -- sizes -- *)
+Definition isz (items : kvs) : nat :=
+  fold_right (fun kv acc => match kv with (_, i0) => item_size i0 + acc end) 0 items.
+Lemma tbl_size_eq items d im dt p sp : tbl_size (Tbl items d im dt p sp) = S (isz items).
+Proof. reflexivity. Qed.
+Lemma isz_In k i items : In (k, i) items -> item_size i <= isz items.
+Proof.
+  induction items as [|[k1 i1] items IH]; simpl; [contradiction|].
+  intros [H|H]; [injection H as -> ->; lia|]. specialize (IH H). lia.
+Qed.
+Lemma tsz_In e ts : In e ts -> tbl_size e <= fold_right (fun t acc => tbl_size t + acc) 0 ts.
+Proof.
+  induction ts as [|t ts IH]; simpl; [contradiction|].
+  intros [->|H]; [lia|]. specialize (IH H). lia.
+Qed.
+
+(* -- a line fragment belongs to the lines of some section of the traversal -- *)
+Lemma frag_line_sound : forall p k0 kp hp it kp1 v,
+  frag_at p k0 kp hp it = Some (FLine kp1 v) ->
+  match k0 with
+  | Some k' =>
+    (forall f, item_size it <= f -> In (kp1, v) (contrib f kp (k', it))) \/
+    (exists sec, In (kp1, v) (section_lines sec) /\
+                 exists sp ar, forall f, item_size it <= f -> In (sec, sp, ar) (ncontrib f hp (k', it)))
+  | None =>
+    match it with
+    | ITable cur =>
+      forall arr, exists sec, In (kp1, v) (section_lines sec) /\
+                  exists sp ar, forall f, S (tbl_size cur) <= f -> In (sec, sp, ar) (nested_tables f cur hp arr)
+    | _ => False
+    end
+  end.
+Proof.
+  induction p as [|s p IH]; intros k0 kp hp it kp1 v He.
+  - (* the value itself *)
+    simpl in He. destruct it as [|v0|[m d im dt pos sp]|]; try discriminate.
+    + destruct k0 as [k'|]; [|discriminate].
+      destruct (is_dotted_inline v0) eqn:Ed; [discriminate|]. injection He as <- <-.
+      left. intros f _. unfold contrib. simpl.
+      destruct v0 as [| |sub pre im [|] d sp]; try (left; reflexivity). discriminate.
+    + destruct dt; [discriminate|]. destruct k0; [discriminate|]. destruct hp; discriminate.
+  - destruct s as [k|n]; simpl in He.
+    + destruct it as [|v0|[m d im dt pos sp]|]; try discriminate.
+      assert (Hchild : forall k1 i kp' hp',
+                 kv_get m k = Some (k1, i) -> frag_at p (Some k1) kp' hp' i = Some (FLine kp1 v) ->
+                 (* either a line of this table's own traversal, or a section below *)
+                 (forall f, isz m <= f -> In (kp1, v) (flat_map (contrib f kp') m)) \/
+                 (exists sec, In (kp1, v) (section_lines sec) /\
+                              exists sp0 ar, forall f, isz m <= f -> In (sec, sp0, ar) (flat_map (ncontrib f hp') m))).
+      { intros k1 i kp' hp' G Hf. pose proof (kv_get_In _ _ _ _ G) as Hin.
+        pose proof (isz_In _ _ _ Hin) as Hsz.
+        destruct (IH (Some k1) kp' hp' i kp1 v Hf) as [H1|(sec & Hl & sp0 & ar & H2)].
+        - left. intros f Hle. apply in_flat_map. exists (k1, i). split; [exact Hin|]. apply H1. unfold isz. lia.
+        - right. exists sec. split; [exact Hl|]. exists sp0, ar. intros f Hle.
+          apply in_flat_map. exists (k1, i). split; [exact Hin|]. apply H2. unfold isz. lia. }
+      destruct k0 as [k'|].
+      * destruct (kv_get m k) as [[k1 i]|] eqn:G; [|discriminate].
+        destruct (Hchild k1 i _ _ eq_refl He) as [H1|(sec & Hl & sp0 & ar & H2)].
+        -- destruct dt.
+           ++ (* a dotted table: its lines are lines of the enclosing section *)
+              left. intros f Hle. unfold contrib. simpl. simpl in Hle.
+              destruct f as [|f]; [lia|]. rewrite table_values_S. apply H1. unfold isz. lia.
+           ++ (* a section of its own *)
+              right. exists (Tbl m d im false pos sp). split.
+              ** unfold section_lines. rewrite table_values_S. apply H1. unfold isz. simpl. lia.
+              ** exists (hp ++ [k']), false. intros f Hle. unfold ncontrib. simpl. simpl in Hle.
+                 destruct f as [|f]; [lia|]. rewrite nested_tables_S. simpl. left. reflexivity.
+        -- right. exists sec. split; [exact Hl|]. exists sp0, ar. intros f Hle.
+           unfold ncontrib. simpl. simpl in Hle. destruct f as [|f]; [lia|].
+           rewrite nested_tables_S. apply in_or_app. right. apply H2. unfold isz. lia.
+      * destruct dt; [discriminate|].
+        destruct (kv_get m k) as [[k1 i]|] eqn:G; [|discriminate].
+        intro arr.
+        destruct (Hchild k1 i _ _ eq_refl He) as [H1|(sec & Hl & sp0 & ar & H2)].
+        -- exists (Tbl m d im false pos sp). split.
+           ++ unfold section_lines. rewrite table_values_S. apply H1. unfold isz. simpl. lia.
+           ++ exists hp, arr. intros f Hle. destruct f as [|f]; [lia|].
+              rewrite nested_tables_S. simpl. left. reflexivity.
+        -- exists sec. split; [exact Hl|]. exists sp0, ar. intros f Hle. simpl in Hle.
+           destruct f as [|f]; [lia|]. rewrite nested_tables_S. apply in_or_app. right. apply H2. unfold isz. lia.
+    + destruct it as [|v0|[m d im dt pos sp]|ts sp]; try discriminate.
+      destruct k0 as [k'|]; [|discriminate].
+      destruct (nth_error ts n) as [e|] eqn:G; [|discriminate].
+      specialize (IH None [] (hp ++ [k']) (ITable e) kp1 v He). simpl in IH.
+      destruct (IH true) as (sec & Hl & sp0 & ar & H2).
+      right. exists sec. split; [exact Hl|]. exists sp0, ar. intros f Hle.
+      unfold ncontrib. simpl. apply in_flat_map. exists e. split; [eapply nth_error_In; eauto|].
+      apply H2. pose proof (tsz_In e ts (nth_error_In _ _ G)). simpl in Hle. lia.
+Qed.
+
+(* -- from a section of the traversal to the text -- *)
+Lemma assign_positions_In x l last : In x l -> exists pos, In (pos, x) (assign_positions last l).
+Proof.
+  revert last. induction l as [|[[t p] a] l IH]; intro last; simpl; [contradiction|].
+  intros [<-|H].
+  - eexists. left. reflexivity.
+  - destruct (IH (match t_position t with Some q => q | None => last end) H) as (pos & Hp).
+    exists pos. right. exact Hp.
+Qed.
+
+Lemma insert_sorted_In {A} (x y : N * A) l : In y (insert_sorted x l) <-> y = x \/ In y l.
+Proof.
+  induction l as [|z l IH]; simpl; [intuition congruence|].
+  destruct (fst x <? fst z)%N; simpl; [intuition congruence|]. rewrite IH. intuition congruence.
+Qed.
+Lemma enc_stable_sort_In {A} (y : N * A) l : In y l -> In y (Encode.stable_sort l).
+Proof.
+  unfold Encode.stable_sort.
+  assert (G : forall acc, In y l \/ In y acc -> In y (fold_left (fun acc x => insert_sorted x acc) l acc)).
+  { induction l as [|x l IH]; intros acc H; simpl.
+    - destruct H; [contradiction|assumption].
+    - apply IH. destruct H as [[->|H]|H].
+      + right. apply insert_sorted_In. left. reflexivity.
+      + left. exact H.
+      + right. apply insert_sorted_In. right. exact H. }
+  intro H. apply G. left. exact H.
+Qed.
+
+Lemma sections_text_infix l pos t p a :
+  In (pos, (t, p, a)) l -> forall first, exists first', infix (section_text t p a first') (sections_text l first).
+Proof.
+  induction l as [|[pos1 [[t1 p1] a1]] l IH]; simpl; [contradiction|].
+  intros [H|H] first.
+  - injection H as -> -> -> ->. exists first. apply infix_app_r, infix_refl.
+  - destruct (IH H (next_first t1 p1 a1 first)) as (f' & Hi). exists f'. apply infix_app_l. exact Hi.
+Qed.
+
+Lemma section_line_infix t p a first kp v :
+  In (kp, v) (section_lines t) -> infix (entry_fragment kp v) (section_text t p a first).
+Proof.
+  intro H. unfold section_text. apply infix_app_l.
+  exact (infix_flat_map (fun x => entry_fragment (fst x) (snd x)) (kp, v) _ H).
+Qed.
+
+(* every key/value line the tree holds (`doc_frag t p = Some (FLine kp v)`) is in the printed text *)
+Theorem line_printed : forall t p kp v trailing,
+  doc_frag t p = Some (FLine kp v) -> infix (entry_fragment kp v) (display_document t trailing).
+Proof.
+  intros t p kp v trailing H. unfold doc_frag in H.
+  pose proof (frag_line_sound p None [] [] (ITable t) kp v H false) as (sec & Hl & sp0 & ar & Hs).
+  specialize (Hs (S (tbl_size t)) (Nat.le_refl _)).
+  destruct (assign_positions_In _ _ 0%N Hs) as (pos & Hp).
+  apply enc_stable_sort_In in Hp.
+  destruct (sections_text_infix _ _ _ _ _ Hp true) as (first' & Hi).
+  rewrite display_document_sections. apply infix_app_l, infix_app_r.
+  eapply infix_trans; [|exact Hi]. apply section_line_infix. exact Hl.
+Qed.
+
+(* -- headers -- *)
+Lemma frag_head_sound : forall p k0 kp hp it hp1 d arr,
+  frag_at p k0 kp hp it = Some (FHead hp1 d arr) ->
+  match k0 with
+  | Some k' =>
+    exists sec, t_decor sec = d /\ hp1 <> [] /\
+                forall f, item_size it <= f -> In (sec, hp1, arr) (ncontrib f hp (k', it))
+  | None =>
+    match it with
+    | ITable cur =>
+      forall arr0, (p = [] -> arr0 = arr) ->
+      exists sec, t_decor sec = d /\ hp1 <> [] /\
+                  forall f, S (tbl_size cur) <= f -> In (sec, hp1, arr) (nested_tables f cur hp arr0)
+    | _ => False
+    end
+  end.
+Proof.
+  induction p as [|s p IH]; intros k0 kp hp it hp1 d arr He.
+  - simpl in He. destruct it as [|v0|[m d0 im dt pos sp]|]; try discriminate.
+    + destruct k0; [|discriminate]. destruct (is_dotted_inline v0); discriminate.
+    + destruct dt; [discriminate|]. destruct k0 as [k'|].
+      * injection He as <- <- <-. exists (Tbl m d0 im false pos sp). split; [reflexivity|]. split.
+        -- intro E. apply app_eq_nil in E as [_ E]. discriminate.
+        -- intros f Hle. unfold ncontrib. simpl. simpl in Hle. destruct f as [|f]; [lia|].
+           rewrite nested_tables_S. simpl. left. reflexivity.
+      * destruct hp as [|h hp]; [discriminate|]. injection He as <- <- <-.
+        intros arr0 Ha. rewrite (Ha eq_refl). exists (Tbl m d0 im false pos sp). split; [reflexivity|]. split; [discriminate|].
+        intros f Hle. destruct f as [|f]; [lia|]. rewrite nested_tables_S. simpl. left. reflexivity.
+  - destruct s as [k|n]; simpl in He.
+    + destruct it as [|v0|[m d0 im dt pos sp]|]; try discriminate.
+      assert (Hchild : forall k1 i kp' hp',
+                 kv_get m k = Some (k1, i) -> frag_at p (Some k1) kp' hp' i = Some (FHead hp1 d arr) ->
+                 exists sec, t_decor sec = d /\ hp1 <> [] /\
+                             forall f, isz m <= f -> In (sec, hp1, arr) (flat_map (ncontrib f hp') m)).
+      { intros k1 i kp' hp' G Hf. pose proof (kv_get_In _ _ _ _ G) as Hin.
+        pose proof (isz_In _ _ _ Hin) as Hsz.
+        destruct (IH (Some k1) kp' hp' i hp1 d arr Hf) as (sec & Hd & Hn & H2).
+        exists sec. split; [exact Hd|]. split; [exact Hn|]. intros f Hle.
+        apply in_flat_map. exists (k1, i). split; [exact Hin|]. apply H2. lia. }
+      destruct k0 as [k'|].
+      * destruct (kv_get m k) as [[k1 i]|] eqn:G; [|discriminate].
+        destruct (Hchild k1 i _ _ eq_refl He) as (sec & Hd & Hn & H2).
+        exists sec. split; [exact Hd|]. split; [exact Hn|]. intros f Hle.
+        unfold ncontrib. simpl. simpl in Hle. destruct f as [|f]; [lia|].
+        rewrite nested_tables_S. apply in_or_app. right. apply H2. unfold isz. lia.
+      * destruct dt; [discriminate|].
+        destruct (kv_get m k) as [[k1 i]|] eqn:G; [|discriminate].
+        intros arr0 _.
+        destruct (Hchild k1 i _ _ eq_refl He) as (sec & Hd & Hn & H2).
+        exists sec. split; [exact Hd|]. split; [exact Hn|]. intros f Hle. simpl in Hle.
+        destruct f as [|f]; [lia|]. rewrite nested_tables_S. apply in_or_app. right. apply H2. unfold isz. lia.
+    + destruct it as [|v0|[m d0 im dt pos sp]|ts sp]; try discriminate.
+      destruct k0 as [k'|]; [|discriminate].
+      destruct (nth_error ts n) as [e|] eqn:G; [|discriminate].
+      specialize (IH None [] (hp ++ [k']) (ITable e) hp1 d arr He). simpl in IH.
+      assert (Ha : p = [] -> true = arr).
+      { intros ->. simpl in He. destruct e as [m0 d1 im0 dt0 p0 sp0]. destruct dt0; [discriminate|].
+        destruct (hp ++ [k']); [discriminate|]. injection He as _ _ <-. reflexivity. }
+      destruct (IH true Ha) as (sec & Hd & Hn & H2).
+      exists sec. split; [exact Hd|]. split; [exact Hn|]. intros f Hle.
+      unfold ncontrib. simpl. apply in_flat_map. exists e. split; [eapply nth_error_In; eauto|].
+      apply H2. pose proof (tsz_In e ts (nth_error_In _ _ G)). simpl in Hle. lia.
+Qed.
+
+Lemma section_header_infix t p a first :
+  infix (header_fragment t p a first) (section_text t p a first).
+Proof. unfold section_text. apply infix_app_r, infix_refl. Qed.
+
+(* the header of every table the tree holds as a section (`doc_frag t p = Some (FHead hp d arr)`) is in
+   the printed text, unless the table is implicit and has no key/value line (then no header is printed) *)
+Theorem header_printed : forall t p hp d arr trailing,
+  doc_frag t p = Some (FHead hp d arr) ->
+  exists sec, t_decor sec = d /\
+    (arr = true \/ t_implicit sec && no_lines sec = false ->
+     exists first, infix (header_text hp d arr first) (display_document t trailing)).
+Proof.
+  intros t p hp d arr trailing H. unfold doc_frag in H.
+  assert (Hp0 : p = [] -> false = arr) by (intros ->; simpl in H; destruct t as [? ? ? [|] ? ?]; discriminate).
+  pose proof (frag_head_sound p None [] [] (ITable t) hp d arr H false Hp0) as (sec & Hd & Hn & Hs).
+  exists sec. split; [exact Hd|]. intro Hv.
+  specialize (Hs (S (tbl_size t)) (Nat.le_refl _)).
+  destruct (assign_positions_In _ _ 0%N Hs) as (pos & Hp).
+  apply enc_stable_sort_In in Hp.
+  destruct (sections_text_infix _ _ _ _ _ Hp true) as (first' & Hi).
+  exists first'. rewrite display_document_sections. apply infix_app_l, infix_app_r.
+  eapply infix_trans; [|exact Hi].
+  assert (E : header_fragment sec hp arr first' = header_text hp d arr first').
+  { unfold header_fragment. destruct hp as [|h hp]; [contradiction Hn; reflexivity|]. rewrite Hd.
+    destruct arr; [reflexivity|]. destruct Hv as [Hv|Hv]; [discriminate|]. rewrite Hv. reflexivity. }
+  rewrite <- E. apply section_header_infix.
+Qed.
+
+(* ==================================================================================== *)
+(** * F. Together: the printed text after an edit contains byte-identical lines for all untouched entries *)
+
+Theorem verbatim_text : forall t o t' p kp v trailing trailing',
+  apply o t = Some t' -> doc_frag t p = Some (FLine kp v) -> untouched_frag o p false = true ->
+  infix (entry_fragment kp v) (display_document t trailing) /\
+  infix (entry_fragment kp v) (display_document t' trailing').
+Proof.
+  intros t o t' p kp v tr tr' H He Hu. split.
+  - eapply line_printed; eauto.
+  - eapply line_printed. exact (step_fragment _ _ _ _ _ H He Hu).
+Qed.
+
+Theorem history_verbatim_text : forall ops t t' p kp v trailing trailing',
+  apply_seq ops t = Some t' -> doc_frag t p = Some (FLine kp v) -> untouched_frag_all ops p false = true ->
+  infix (entry_fragment kp v) (display_document t trailing) /\
+  infix (entry_fragment kp v) (display_document t' trailing').
+Proof.
+  intros ops t t' p kp v tr tr' H He Hu. split.
+  - eapply line_printed; eauto.
+  - eapply line_printed. exact (history_fragment _ _ _ _ _ H He Hu).
+Qed.
+
+(* a header whose decor is explicit (every parsed header) prints the same bytes wherever it stands *)
+Lemma header_text_explicit hp d arr first first' :
+  d_prefix d <> None -> d_suffix d <> None -> header_text hp d arr first = header_text hp d arr first'.
+Proof.
+  intros Hp Hs. unfold header_text, decor_prefix, decor_suffix.
+  destruct (d_prefix d); [|contradiction]. destruct (d_suffix d); [|contradiction]. reflexivity.
+Qed.
